@@ -14,7 +14,9 @@ import tlcrun
 
 PLANS = {"quick": {"comp": [("comp3", "comp", 3, 12000)], "MaxFields": 2},
          # (budget 4 has > 40M derivation states: explored by seeded random walks instead of exhaustively)
-         "thorough": {"comp": [("comp3", "comp", 3, None), ("compR5", "comp", 5, 120000, 60000)], "MaxFields": 3}}
+         # (all of comp3 - 700k+ programs with a comprehension since the family got constant conditions - does not fit in
+         #  memory next to 16 forked replay workers: a stratified 250k sample)
+         "thorough": {"comp": [("comp3", "comp", 3, 250000), ("compR5", "comp", 5, 120000, 60000)], "MaxFields": 3}}
 FN = ["a", "b", "c", "d"]
 
 
